@@ -768,6 +768,8 @@ class Executor(Exec):
                 if any(is_z3(k) for k in keys):
                     raise OutOfSubset("sorted with symbolic keys")
                 return [x for _, x in sorted(zip(keys, v), key=lambda p: p[0], reverse=bool(kw.get("reverse")))]
+            if any(not isinstance(x, (int, str, tuple, float)) for x in v):
+                raise OutOfSubset("sorted() over symbolic values")
             return sorted(v, reverse=bool(kw.get("reverse")))
         if name == "sum":
             v = self.concrete_iter(args[0])
